@@ -179,7 +179,7 @@ Definition SG_spec (n : nat) (knn_i knn_d sg : list (list Z)) (vorder : list Z) 
        exists d, edge_len knn_i knn_d u v = Some d) /\
     (* degree bound up to ties with the longest kept edge *)
     (let ls := flat_map (fun b => match edge_len knn_i knn_d u (getZ vorder (zidx b)) with Some d => [d] | None => [] end) row in
-     (length (filter (fun d => (d <? fold_right Z.max 0 ls)%Z) ls) <= maxdeg)%nat) /\
+     (length (filter (fun d => (d <? fold_right Z.max (hd 0 ls) ls)%Z) ls) <= maxdeg)%nat) /\
     (* nearest listed neighbour: an edge at least as short is kept *)
     (forall w d1, first_other u (getRow knn_i (zidx u)) (getRow knn_d (zidx u)) = Some (w, d1) ->
        exists b d, In b row /\ edge_len knn_i knn_d u (getZ vorder (zidx b)) = Some d /\ d <= d1).
